@@ -385,6 +385,9 @@ enum ImplicitMappingState {
     /// The innermost open flow collection is an explicit `{` mapping: its `,` and `:` belong to
     /// it and neither start nor end an implicit mapping of an enclosing sequence.
     ExplicitMapping,
+    /// The current entry of the flow sequence started with an explicit `?`: its `:` belongs to
+    /// that key and starts no implicit mapping. The state ends with the entry (`,` or `]`).
+    ExplicitKey,
 }
 
 /// The YAML scanner.
@@ -445,13 +448,6 @@ pub struct Scanner<'input, T> {
     token_available: bool,
     /// Whether all characters encountered since the last newline were whitespace.
     leading_whitespace: bool,
-    /// Whether we started a flow mapping.
-    ///
-    /// This is used to detect implicit flow mapping starts such as:
-    /// ```yaml
-    /// [ : foo ] # { null: "foo" }
-    /// ```
-    flow_mapping_started: bool,
     /// An array of states, representing whether flow sequences have implicit mappings.
     ///
     /// When a flow mapping is possible (when encountering the first `[` or a `,` in a sequence),
@@ -518,7 +514,6 @@ impl<'input, T: Input> Scanner<'input, T> {
             tokens_parsed: 0,
             token_available: false,
             leading_whitespace: true,
-            flow_mapping_started: false,
             implicit_flow_mapping_states: vec![],
 
             buf_leading_break: String::new(),
@@ -2349,9 +2344,11 @@ impl<'input, T: Input> Scanner<'input, T> {
                 TokenType::BlockMappingStart,
                 start_mark,
             );
-        } else {
+        } else if let Some(state) = self.implicit_flow_mapping_states.last_mut() {
             // The scanner, upon emitting a `Key`, will prepend a `MappingStart` event.
-            self.flow_mapping_started = true;
+            if *state == ImplicitMappingState::Possible {
+                *state = ImplicitMappingState::ExplicitKey;
+            }
         }
 
         self.remove_simple_key()?;
@@ -2413,7 +2410,7 @@ impl<'input, T: Input> Scanner<'input, T> {
         let is_implicit_flow_mapping = matches!(
             self.implicit_flow_mapping_states.last(),
             Some(ImplicitMappingState::Possible | ImplicitMappingState::Inside)
-        ) && !self.flow_mapping_started;
+        );
         if is_implicit_flow_mapping {
             *self.implicit_flow_mapping_states.last_mut().unwrap() = ImplicitMappingState::Inside;
         }
@@ -2622,10 +2619,12 @@ impl<'input, T: Input> Scanner<'input, T> {
     fn end_implicit_mapping(&mut self, mark: Marker) {
         if let Some(implicit_mapping) = self.implicit_flow_mapping_states.last_mut() {
             if *implicit_mapping == ImplicitMappingState::Inside {
-                self.flow_mapping_started = false;
                 *implicit_mapping = ImplicitMappingState::Possible;
                 self.tokens
                     .push_back(Token(Span::empty(mark), TokenType::FlowMappingEnd));
+            } else if *implicit_mapping == ImplicitMappingState::ExplicitKey {
+                // The explicit `?` entry is over.
+                *implicit_mapping = ImplicitMappingState::Possible;
             }
         }
     }
